@@ -37,6 +37,48 @@ def verdictsOf (j : Json) : Except String (Str → Bool) := do
     | some p => p.2
     | none => false
 
+/-- a JSON value in the tagged transport form (exact comparison, number literals kept as text, object
+    entries in the map's iteration order): `["z"]`, `["b", bool]`, `["n", "literal"]`, `["s", "text"]`,
+    `["a", [v, …]]`, `["o", [[key, v], …]]` -/
+partial def jvOf (j : Json) : Except String J := do
+  let a ← j.getArr?
+  let tag ← (← (a[0]?).elim (throw "empty tagged value") pure).getStr?
+  let arg ← match a[1]? with
+    | some x => pure x
+    | none => pure Json.null
+  match tag with
+  | "z" => pure .null
+  | "b" => pure (.bool (← arg.getBool?))
+  | "n" => pure (.num (← strOf arg))
+  | "s" => pure (.str (← strOf arg))
+  | "a" => do
+      let xs ← (← arg.getArr?).toList.mapM jvOf
+      pure (.arr (JList.ofList xs))
+  | "o" => do
+      let kvs ← (← arg.getArr?).toList.mapM fun e => do
+        let p ← e.getArr?
+        let k ← strOf (← (p[0]?).elim (throw "entry without key") pure)
+        let v ← jvOf (← (p[1]?).elim (throw "entry without value") pure)
+        pure (k, v)
+      pure (.obj (JFields.ofList kvs))
+  | _ => throw s!"bad tagged value {tag}"
+
+mutual
+def jJv : J → Json
+  | .null => jArr [Json.str "z"]
+  | .bool b => jArr [Json.str "b", Json.bool b]
+  | .num l => jArr [Json.str "n", jStr l]
+  | .str s => jArr [Json.str "s", jStr s]
+  | .arr xs => jArr [Json.str "a", jArr (jJvList xs)]
+  | .obj kvs => jArr [Json.str "o", jArr (jJvFields kvs)]
+def jJvList : JList → List Json
+  | .nil => []
+  | .cons x xs => jJv x :: jJvList xs
+def jJvFields : JFields → List Json
+  | .nil => []
+  | .cons k v rest => jArr [jStr k, jJv v] :: jJvFields rest
+end
+
 def msgOf (j : Json) : Except String Msg := do
   let k ← (← j.getObjVal? "k").getStr?
   match k with
@@ -44,7 +86,7 @@ def msgOf (j : Json) : Except String Msg := do
   | "assistant" => pure (.assistant (← getStrField j "text"))
   | "thinking" => pure (.thinking (← getStrField j "text"))
   | "plan" => pure (.plan (← getStrField j "text"))
-  | "tool_use" => pure (.toolUse (← getStrField j "name") (← getStrField j "input"))
+  | "tool_use" => pure (.toolUse (← getStrField j "name") (← jvOf (← j.getObjVal? "input")))
   | _ => throw s!"bad message kind {k}"
 
 def jMsg : Msg → Json
@@ -52,7 +94,7 @@ def jMsg : Msg → Json
   | .assistant t => jObj [("k", "assistant"), ("text", jStr t)]
   | .thinking t => jObj [("k", "thinking"), ("text", jStr t)]
   | .plan t => jObj [("k", "plan"), ("text", jStr t)]
-  | .toolUse n i => jObj [("k", "tool_use"), ("name", jStr n), ("input", jStr i)]
+  | .toolUse n i => jObj [("k", "tool_use"), ("name", jStr n), ("input", jJv i)]
 
 def promptOf (j : Json) : Except String Prompt := do
   let id ← getStrField j "id"
@@ -115,6 +157,12 @@ def handle (op : String) (j : Json) : Option (Except String Json) :=
       let sel ← verdictsOf j
       match redactPrompts sel ps with
       | some (r, n) => pure (jObj [("ok", jObj [("prompts", jArr (r.map jPrompt)), ("count", jNat n)])])
+      | none => pure (jObj [("err", "panic")])
+  | "rd_redact_json" => some do
+      let v ← jvOf (← j.getObjVal? "value")
+      let sel ← verdictsOf j
+      match redactJ sel v with
+      | some (r, n) => pure (jObj [("ok", jObj [("value", jJv r), ("count", jNat n)])])
       | none => pure (jObj [("err", "panic")])
   | "rd_strip_prompts" => some do
       let ps ← (← getArrField j "prompts").toList.mapM promptOf
